@@ -185,6 +185,35 @@ V_HARNESS(h_lto_to_time)
   V_END();
 }
 
+/* Reference times within |offset| of the epoch.  time_t is a signed 64-bit type here, so every result around 1970
+ * (negative ones included) is representable and the documented contract (fail only if not representable) asks for
+ * the converted time.  pdc.c refuses (EOVERFLOW) when seconds_east < 0 and start + seconds_east < 0, and when
+ * seconds_east > 0 and the result is negative - but not for seconds_east == 0 (checks written for an unsigned time_t). */
+V_HARNESS(h_lto_to_time_epoch)
+{
+  struct scen sc; time_t r; int valid, leap_ok = 0, Ye = 0;
+  V_INIT();
+  scen_read(&sc, 1);
+  sc.use_now = 0;
+  scen_start(&sc);
+  V_ASSUME(sc.S != -1);
+  r = vbi_pil_lto_to_time(sc.pil, sc.start_arg, sc.Z);
+  post_tz(&sc);
+  valid = ref_valid(&sc);
+  if (valid) { Ye = ref_year(&sc); leap_ok = sc.pd <= m14_days_in_month(Ye, sc.pm0); }
+  if (valid && leap_ok && !env_failed()) {
+    int refused_region = (sc.Z < 0 && sc.S + sc.Z < 0) || (sc.Z > 0 && M14.n_mktime >= 1 && M14.mk[0].local - sc.Z < 0);
+    if (M14.n_mktime >= 1) expect_mk(0, Ye, sc.pm0, sc.pd, sc.ph, sc.pmi, sc.zone);
+#ifdef KNOWN_PDC_EPOCH_EDGE
+    if (!refused_region)
+#endif
+    V_ASSERT(M14.n_mktime == 1 && (int64_t) r == M14.mk[0].local - sc.Z, "epoch_representable_result_is_returned");
+    if (refused_region) V_REACH("epoch_refused_region");
+    if (!refused_region && r < 0) V_REACH("negative_result_ok");
+  } else V_ASSERT((time_t) -1 == r, "fails");
+  V_END();
+}
+
 V_HARNESS(h_pil_to_time)
 {
   struct scen sc; time_t r;
@@ -251,6 +280,20 @@ static int ref_window_class(const struct scen *sc)
   return W_UNALLOC;
 }
 
+/* C14_PILCLS splits the window obligations: 1 = dated PILs only (month 1..12 with a valid day), 2 = all other codes */
+#ifndef C14_PILCLS
+#define C14_PILCLS 0
+#endif
+static void assume_pil_class(int cls)
+{
+#ifdef VERIF_NATIVE
+  (void) cls;   /* replay/smoke: any class */
+#else
+  if (C14_PILCLS == 1) V_ASSUME(cls == W_DATE);
+  if (C14_PILCLS == 2) V_ASSUME(cls != W_DATE);
+#endif
+}
+
 /* pty_arith: NSPV goes through the UTC arithmetic path */
 static void check_window(const struct scen *sc, int cls, int pty_arith, vbi_bool ok, time_t b, time_t e, time_t b0, time_t e0)
 {
@@ -280,7 +323,7 @@ static void check_window(const struct scen *sc, int cls, int pty_arith, vbi_bool
       V_ASSERT(b < e, "win_begin_before_end");
       V_ASSERT((int64_t) e - (int64_t) b == (early ? 32 : 28) * HOUR, "win_length_28h_or_32h");
       if (sc->ph < 24 && sc->pmi < 60) {
-        int64_t tP = M + sc->ph * HOUR + sc->pmi * 60;           /* what *_to_time returns, see h_*_to_time */
+        int64_t tP = M + (int64_t) (sc->ph * 3600 + sc->pmi * 60);           /* what *_to_time returns, see h_*_to_time */
         V_ASSERT((int64_t) b <= tP && tP < (int64_t) e, "win_contains_converted_pil");
       }
       dated = 1;
@@ -311,6 +354,7 @@ V_HARNESS(h_lto_window)
   scen_read(&sc, 1);
   b0 = b = (time_t) in_u64(); e0 = e = (time_t) in_u64();
   cls = ref_window_class(&sc);
+  assume_pil_class(cls);
   east = sc.Z;
   if (cls == W_NSPV) { sc.use_now = 0; sc.Z = 0; }   /* NSPV: seconds_east documented as ignored, PTY rule in UTC */
   scen_start(&sc);
@@ -326,6 +370,7 @@ V_HARNESS(h_pil_window)
   scen_read(&sc, 0);
   b0 = b = (time_t) in_u64(); e0 = e = (time_t) in_u64();
   cls = ref_window_class(&sc);
+  assume_pil_class(cls);
   if (cls == W_NSPV) sc.use_now = 0;
   scen_start(&sc);
   ok = vbi_pil_validity_window(&b, &e, sc.pil, sc.start_arg, sc.tz);
